@@ -746,15 +746,7 @@ class Desugar(ast.NodeTransformer):
             pre = ast.copy_location(ast.Assign(targets=[ast.Name(id=tmp, ctx=ast.Store())], value=it, lineno=node.lineno), node)
             node.iter = ast.copy_location(ast.Name(id=tmp, ctx=ast.Load()), it)
             return [pre, node]
-        if isinstance(it, ast.Call) and not node.orelse:
-            fn = ast.unparse(it.func)
-            # for v in list(X) / tuple(X)  with X an iteration helper over pure arguments  ->  for v in X
-            if fn in ("list", "tuple") and len(it.args) == 1 and not it.keywords and isinstance(it.args[0], ast.Call) \
-                    and ast.unparse(it.args[0].func) in ("product", "itertools.product", "range", "zip", "enumerate") \
-                    and not any(isinstance(x, ast.Call) and ast.unparse(x.func) not in ("range", "len", "product", "itertools.product", "zip", "enumerate") for x in ast.walk(it.args[0])):
-                node.iter = it = it.args[0]
-                fn = ast.unparse(it.func)
-            # for i, v in enumerate((E for _ in range(n))): B   ->   for i in range(n): v = E; B        (generator variable unused in E)
+        # for i, v in enumerate((E for _ in range(n))): B   ->   for i in range(n): v = E; B        (generator variable unused in E)
         if isinstance(it, ast.Call) and ast.unparse(it.func) == "enumerate" and len(it.args) == 1 and not it.keywords and isinstance(it.args[0], (ast.GeneratorExp, ast.ListComp)) \
                 and len(it.args[0].generators) == 1 and not it.args[0].generators[0].ifs and isinstance(node.target, ast.Tuple) and len(node.target.elts) == 2 \
                 and all(isinstance(t, ast.Name) for t in node.target.elts) and not node.orelse:
@@ -764,7 +756,15 @@ class Desugar(ast.NodeTransformer):
                     and not any(isinstance(x, ast.Name) and x.id == g.target.id for x in ast.walk(it.args[0].elt)):
                 bind = ast.copy_location(ast.Assign(targets=[node.target.elts[1]], value=it.args[0].elt, lineno=node.lineno), node)
                 return ast.copy_location(ast.For(target=node.target.elts[0], iter=r, body=[bind] + node.body, orelse=[], type_comment=None), node)
-        # for v in repeat(E, n)  ->  for _ in range(n) [v = E]        (E a name or literal: the same object every time)
+        if isinstance(it, ast.Call) and not node.orelse:
+            fn = ast.unparse(it.func)
+            # for v in list(X) / tuple(X)  with X an iteration helper over pure arguments  ->  for v in X
+            if fn in ("list", "tuple") and len(it.args) == 1 and not it.keywords and isinstance(it.args[0], ast.Call) \
+                    and ast.unparse(it.args[0].func) in ("product", "itertools.product", "range", "zip", "enumerate") \
+                    and not any(isinstance(x, ast.Call) and ast.unparse(x.func) not in ("range", "len", "product", "itertools.product", "zip", "enumerate") for x in ast.walk(it.args[0])):
+                node.iter = it = it.args[0]
+                fn = ast.unparse(it.func)
+            # for v in repeat(E, n)  ->  for _ in range(n) [v = E]        (E a name or literal: the same object every time)
             if fn in ("repeat", "itertools.repeat") and len(it.args) == 2 and not it.keywords and isinstance(node.target, ast.Name) \
                     and isinstance(it.args[0], (ast.Name, ast.Constant)):
                 used = any(isinstance(x, ast.Name) and x.id == node.target.id for s_ in node.body for x in ast.walk(s_))
